@@ -251,7 +251,8 @@ Fixpoint check_stmt (G : cenv) (K : option ctx) (st : astmt ann) {struct st} : o
       if check_expr G K c then
         match check_block (crefine G (implied c true)) K ift, check_block (crefine G (implied c false)) K iff with
         | Some Gtr, Some Gfa =>
-            let Gj := cjoin Gtr Gfa in
+            (* an arm that always returns never reaches the join *)
+            let Gj := if blk_ret ift then Gfa else if blk_ret iff then Gtr else cjoin Gtr Gfa in
             if check_phis Gj ph then Some (set_phis Gj ph) else None
         | _, _ => None
         end
